@@ -42,3 +42,79 @@ def check(run):
                           (f["file"], n["l"]))
     if down < 2:
         run.broken.append("C11-casts saw only %d BaseToDerived/Dynamic casts in the conversion helpers" % down)
+
+    ownership_rule(run, ast)
+
+
+SHARING = r"^std::(static|dynamic|const|reinterpret)_pointer_cast<"
+
+
+def _refers_to_param(n, did):
+    n = astq.strip(n)
+    return n is not None and n.get("k") == "DeclRefExpr" and n["ref"].get("did") == did
+
+
+def _owner_of(n, did, locals_):
+    """'param' when the shared_ptr value `n` shares ownership with parameter `did`; a description of what
+    it is built from otherwise; None when the shape is not recognised."""
+    n = astq.strip(n)
+    if n is None:
+        return None
+    k = n.get("k")
+    if _refers_to_param(n, did):
+        return "param"
+    if k == "DeclRefExpr" and n["ref"].get("did") in locals_:
+        return _owner_of(locals_[n["ref"]["did"]], did, {})
+    if k == "CallExpr" and re.search(SHARING, astq.callee_name(n)):
+        args = (n.get("c") or [])[1:]
+        return _owner_of(args[0], did, locals_) if args else None
+    if k == "CXXConstructExpr" and re.match(r"^std::(shared_ptr|__shared_ptr)<", astq.callee_name(n)):
+        args = n.get("c") or []
+        if not args:
+            return "a default-constructed (empty) shared_ptr"
+        o = _owner_of(args[0], did, locals_)
+        if o is None:
+            return "shared_ptr constructed from `%s`" % astq.text(args[0])[:80]
+        return o
+    if k in ("CXXTemporaryObjectExpr",):
+        return "a default-constructed (empty) shared_ptr"
+    if k == "ConditionalOperator":
+        a, b = _owner_of(n["c"][1], did, locals_), _owner_of(n["c"][2], did, locals_)
+        return a if a == b else (a if a != "param" else b)
+    return None
+
+
+def ownership_rule(run, ast):
+    """a shared_ptr argument converted for a definition shares ownership with the caller's pointer: the
+    conversion helpers return std::{static,dynamic}_pointer_cast of (or a shared_ptr whose owner is) their parameter"""
+    rule = "C11-ownership"
+    run.rule(rule, "shared_ptr conversions on the argument path return a pointer that shares ownership with the argument", floor=4)
+    for f in ast.funcs:
+        if f.get("body") is None or not re.search(r"virtual_(ptr_)?traits<.*::cast<", f["name"]):
+            continue
+        ps = f.get("params") or []
+        if len(ps) != 1 or not re.match(r"^const std::shared_ptr<.*> &$", ps[0]["type"]):
+            continue
+        did = ps[0]["did"]
+        locals_ = {}
+        for n in astq.walk(f["body"]):
+            if n.get("k") == "DeclStmt":
+                for d in n["decls"]:
+                    if d.get("init") is not None:
+                        locals_[d["did"]] = d["init"]
+        rets = [n for n in astq.walk(f["body"]) if n.get("k") == "ReturnStmt" and n.get("c")]
+        if not rets:
+            run.broken.append("C11-ownership: no return statement in %s" % f["name"][:120])
+            continue
+        owners = [(_owner_of(r["c"][0], did, locals_), r) for r in rets]
+        ok = all(o == "param" for o, _ in owners)
+        run.instance(rule, f["name"][:200], (f["file"], f["line"]), ok=ok)
+        for o, r in owners:
+            if o == "param":
+                continue
+            if o is None:
+                run.broken.append("C11-ownership: unrecognised return shape in %s: %s" % (f["name"][:100], astq.text(r["c"][0])[:100]))
+            else:
+                fq = re.sub(r"<.*", "", f["name"].replace("yorel::yomm2::", ""))
+                kind = "const-ref" if "const std::shared_ptr" in f["name"].split("::cast<")[0] else "value"
+                run.violation(rule, "%s|%s|owner" % (fq, kind), "%s returns %s: the converted pointer does not share ownership with the caller's shared_ptr" % (f["name"][:160], o), (f["file"], r["l"]))
